@@ -140,3 +140,42 @@ def document(shapes: list[tuple[int, tuple[str, ...]]]) -> Doc:
     d = Doc(doc, sexp, [], set())
     d.model_feats = mf   # type: ignore[attr-defined]
     return d
+
+
+def response_document(shapes: list[tuple[int, tuple[str, ...]]]) -> Doc:
+    """One GET operation per shape whose 200 response body IS the shape (not wrapped in a model): /s<i>/res."""
+    base = document([])
+    schemas = base.doc["components"]["schemas"]
+    paths, ops, of = {}, [], {}
+    for i, sh in shapes:
+        node, e = build(sh, f"r{i}")
+        seg = f"s{i}"
+        paths[f"/{seg}/res"] = {"get": {"operationId": f"getShape{i}", "tags": ["shapes"], "responses": {
+            "200": {"description": "ok", "content": {"application/json": {"schema": node}}}}}}
+        ops.append({"seg": seg, "path": f"/{seg}/res", "method": "GET", "tags": ["shapes"], "operationId": f"getShape{i}", "params": [],
+                    "body": None, "responses": {"200": {"content": "json", "schema": e}}, "shape": expr(sh)})
+        of[seg] = features(sh)
+    doc = {"openapi": "3.0.3", "info": {"title": "Shapes", "version": "1"}, "paths": paths, "components": {"schemas": schemas}}
+    d = Doc(doc, base.sexp, ops, set())
+    d.op_feats = of   # type: ignore[attr-defined]
+    return d
+
+
+def request_document(shapes: list[tuple[int, tuple[str, ...]]]) -> Doc:
+    """One POST operation per shape whose required JSON request body IS the shape: /s<i>/res."""
+    base = document([])
+    schemas = base.doc["components"]["schemas"]
+    paths, ops, of = {}, [], {}
+    for i, sh in shapes:
+        node, e = build(sh, f"q{i}")
+        seg = f"s{i}"
+        paths[f"/{seg}/res"] = {"post": {"operationId": f"sendShape{i}", "tags": ["shapes"], "requestBody": {
+            "required": True, "content": {"application/json": {"schema": node}}}, "responses": {"204": {"description": "done"}}}}
+        ops.append({"seg": seg, "path": f"/{seg}/res", "method": "POST", "tags": ["shapes"], "operationId": f"sendShape{i}", "params": [],
+                    "body": {"media": "application/json", "schema": e, "required": True}, "responses": {"204": {"content": None}},
+                    "shape": expr(sh)})
+        of[seg] = features(sh)
+    doc = {"openapi": "3.0.3", "info": {"title": "Shapes", "version": "1"}, "paths": paths, "components": {"schemas": schemas}}
+    d = Doc(doc, base.sexp, ops, set())
+    d.op_feats = of   # type: ignore[attr-defined]
+    return d
